@@ -162,9 +162,10 @@ inline double dist_to_line(long double const* p, long double const* a, long doub
 //  acts over at most the remaining length).
 inline double estimator_factor(int integ, double eps)
 {
+    // (both with a 25 % safety margin on top of the derivation above)
     if (integ == I_DP)
-        return 1.6 * std::max(1.0, std::pow(eps / 1e-4, 0.6));
-    return 1.0;
+        return 2.0 * std::max(1.0, std::pow(eps / 1e-4, 0.6));
+    return 1.25;
 }
 
 inline bool finite3(Real3 const& a)
@@ -240,7 +241,7 @@ inline void judge_advance(AdvEv const& a,
     // |p| drift: each accepted integration step keeps the relative momentum error estimate
     // below epsilon_rel_max; at most n such steps
     double drift = std::fabs(pout - pin) / pin;
-    double e_p = (integ == I_ZHELIX ? 0 : std::expm1(n * std::log1p(eps)) + quick_dir) + 64 * eps_m * (1 + n);
+    double e_p = (integ == I_ZHELIX ? 0 : std::expm1(n * std::log1p(eps)) + quick_dir) + 128 * eps_m * (1 + n);
     v.maxima.push_back({"mom_drift_over_bound/" + in, drift / e_p});
     if (!(drift <= e_p))
         v.add("C08/driver-advance/momentum-magnitude/" + std::string(fr.uniform ? "" : "non-uniform-field/") + in,
@@ -253,9 +254,9 @@ inline void judge_advance(AdvEv const& a,
         long double xr[3], ur[3];
         hx.eval(h, xr, ur);
         double xmag = std::max({std::fabs(a.in.pos[0]), std::fabs(a.in.pos[1]), std::fabs(a.in.pos[2])});
-        double e_round = 32 * eps_m * (xmag + h) * (1 + th) * (1 + n);
+        double e_round = 64 * eps_m * (xmag + h) * (1 + th) * (1 + n);
         double e_pos = (integ == I_ZHELIX ? 0 : (eps * h * (1 + n) + quick_pos) * (1 + th)) + e_round;
-        double e_dir = (integ == I_ZHELIX ? 0 : (eps * n + quick_dir) * (1 + th)) + 64 * eps_m * (1 + th) * (1 + n);
+        double e_dir = (integ == I_ZHELIX ? 0 : (eps * n + quick_dir) * (1 + th)) + 128 * eps_m * (1 + th) * (1 + n);
         double errpos = ldnorm(xr, a.out.state.pos);
         Real3 ud = a.out.state.mom;
         for (auto& x : ud)
@@ -477,7 +478,7 @@ inline Verdict judge_propagation(JudgeInput const& ji)
     double th_tot = double(std::fabs(fr.omega)) * d;
     double t_int = keps * d * (1 + ncalls) * (1 + th_tot);  // accumulated truncation allowance
     double xmag = std::max({std::fabs(ji.s0.pos[0]), std::fabs(ji.s0.pos[1]), std::fabs(ji.s0.pos[2])});
-    double t_round = 32 * eps_m * (xmag + d) * (1 + th_tot) * (1 + ncalls);
+    double t_round = 64 * eps_m * (xmag + d) * (1 + th_tot) * (1 + ncalls);
     if (c.integ == I_ZHELIX)
         t_int = 0;
 
@@ -667,7 +668,7 @@ inline Verdict judge_propagation(JudgeInput const& ji)
         // final direction = tangent of the helix at the end ("direction from the integrated momentum")
         double e_dir = (c.integ == I_ZHELIX ? 0 : keps * (1 + ncalls) * (1 + th_tot))
                        + (t_arc + (r.boundary ? o.delta_intersection : 0) + t_int) * double(std::fabs(fr.omega))
-                       + 64 * eps_m * (1 + th_tot) * (1 + ncalls);
+                       + 128 * eps_m * (1 + th_tot) * (1 + ncalls);
         if (bump_tail)
             e_dir = d * double(std::fabs(fr.omega)) + 64 * eps_m;  // direction unchanged over a move of d
         double errdir = ldnorm(ue, ji.s1.dir);
